@@ -62,3 +62,79 @@ Proof. reflexivity. Qed.
 Example C13_ex1 : let h := 0xdeadbeefcafef00d in let hp := 10 in
   index_hash hp h < 2 ^ hp /\ alt_index hp (partial_key h) (index_hash hp h) <> index_hash hp h.
 Proof. vm_compute. split; [reflexivity|discriminate]. Qed.
+
+(* ---- consequence for migration (Resize.v, Lazy.v): a doubling that migrates at once keeps every key; a doubling that DEFERS migration per stripe keeps every key reachable provided the old bucket count is at least the stripe count (then a bucket and its image b + old count share a stripe); finishing one stripe keeps every key ---- *)
+From LC Require Import Core Api InvDefs ArrLemmas Resize Lazy.
+Theorem C13_immediate_doubling_keeps_every_key :
+  forall (c : config) (hash : N -> N),
+  cfg_ok c ->
+  forall (mode : bool) (t : table),
+  settled c hash t ->
+  counted c t ->
+  bhp (cur t) + 1 < 62 ->
+  hashsize (bhp (cur t)) < kmax c \/ mode = true /\ (length (cur_locks t) <= N.to_nat (kmax c))%nat ->
+  let t' := fast_double_body c hash mode t (bhp (cur t) + 1) in
+  settled c hash t' /\
+  counted c t' /\
+  bhp (cur t') = bhp (cur t) + 1 /\
+  (forall (k : N) (v : Z), holds (cur t') k v <-> holds (cur t) k v) /\
+  rc t' = wrap64 (rc t + 1) /\
+  mlfn t' = mlfn t /\
+  mlfd t' = mlfd t /\
+  mhp t' = mhp t /\
+  workers t' = workers t /\
+  nrem t' = 0 /\
+  length (cur_locks t') =
+  PeanoNat.Nat.max (length (cur_locks t)) (N.to_nat (N.min (kmax c) (2 ^ (bhp (cur t) + 1)))).
+Proof. exact fast_double_body_immediate. Qed.
+Print Assumptions C13_immediate_doubling_keeps_every_key.
+
+Theorem C13_deferred_doubling_keeps_every_key_when_stripes_divide_the_old_size :
+  forall (c : config) (hash : N -> N),
+  cfg_ok c ->
+  forall t : table,
+  settled c hash t ->
+  counted c t ->
+  bhp (cur t) + 1 < 62 ->
+  kmax c <= hashsize (bhp (cur t)) ->
+  (length (cur_locks t) <= N.to_nat (kmax c))%nat ->
+  let t' := fast_double_body c hash false t (bhp (cur t) + 1) in
+  wf c hash t' /\
+  lcounted c t' /\
+  bhp (cur t') = bhp (cur t) + 1 /\
+  (forall (k : N) (v : Z), lholds c t' k v <-> holds (cur t) k v) /\
+  rc t' = wrap64 (rc t + 1) /\
+  mlfn t' = mlfn t /\
+  mlfd t' = mlfd t /\
+  mhp t' = mhp t /\
+  workers t' = workers t /\
+  nrem t' = kmax c /\
+  cur t' = bnew (bhp (cur t) + 1) /\
+  old t' = cur t /\
+  length (cur_locks t') = N.to_nat (kmax c) /\ (forall l : N, l < kmax c -> mig (lock_at t' l) = false).
+Proof. exact fast_double_body_deferred. Qed.
+Print Assumptions C13_deferred_doubling_keeps_every_key_when_stripes_divide_the_old_size.
+
+Theorem C13_migrating_one_stripe_keeps_every_key :
+  forall (c : config) (hash : N -> N),
+  cfg_ok c ->
+  forall (s : bool) (t : table) (l : N),
+  wfg c hash s t ->
+  let t' := rehash_lock c hash s t l in
+  wfg c hash s t' /\
+  (forall (k : N) (v : Z), lholds c t' k v <-> lholds c t k v) /\
+  (lcounted c t -> lcounted c t') /\
+  mig (lock_at t' l) = true /\
+  (forall l' : N, l' <> l -> lock_at t' l' = lock_at t l') /\
+  (forall l' : N, mig (lock_at t l') = true -> mig (lock_at t' l') = true) /\
+  bhp (cur t') = bhp (cur t) /\
+  bhp (old t') = bhp (old t) /\
+  length (cur_locks t') = length (cur_locks t) /\
+  rc t' = rc t /\
+  mlfn t' = mlfn t /\
+  mlfd t' = mlfd t /\
+  mhp t' = mhp t /\
+  workers t' = workers t /\
+  (forall b s0 : N, mig (lock_at t (b mod kmax c)) = true -> bget (cur t') b s0 = bget (cur t) b s0).
+Proof. exact rehash_lock_wf. Qed.
+Print Assumptions C13_migrating_one_stripe_keeps_every_key.
